@@ -27,6 +27,7 @@
 -/
 import PypyrModel.Val
 import PypyrModel.Fmt
+import PypyrModel.FmtHeap
 
 namespace Pypyr.Merge
 
@@ -224,4 +225,316 @@ def runStep (useDefaults : Bool) (fuel : Nat) (root : Pairs) : Except Exc Pairs 
         | none => .error (keyNotInContext key)
         | some x => if hasLen x then .ok root' else .error ⟨"TypeError", "object has no len()"⟩
 
+/-! ### Sequences of operations on ONE context
+
+  A pipeline applies `merge` / `set_defaults` / the two steps one after the other to the same context
+  object; what one operation stored is what the next one merges into. -/
+
+/-- One operation on the context. `step useDefaults add?`: the step as a pipeline runs it — its input
+    mapping (`in:` argument) is first put under the step's own key (`add? = none`: the key is what the
+    context already holds). -/
+inductive Op where
+  | merge (add : Val)
+  | defaults (add : Val)
+  | step (useDefaults : Bool) (add : Option Val)
+  deriving Repr, Inhabited
+
+def stepKey (useDefaults : Bool) : String := if useDefaults then "defaults" else "contextMerge"
+
+/-- The context on which a step op runs: `context[key] = add` first. -/
+def withInput (root : Pairs) (useDefaults : Bool) : Option Val → Pairs
+  | none => root
+  | some add => dictSet root (.str (stepKey useDefaults)) add
+
+def runOp (fuel : Nat) (root : Pairs) : Op → Except Exc Pairs
+  | .merge add => (merge fuel root add).map (·.1)
+  | .defaults add => (setDefaults fuel root add).map (·.1)
+  | .step d add => runStep d fuel (withInput root d add)
+
+/-- Run the operations in order on one context; the first failure ends the sequence and reports the
+    index of the failing operation (the context keeps whatever that operation had already written:
+    not modelled, only the index and the error are compared). -/
+def runOpsFrom (fuel : Nat) : Nat → Pairs → List Op → Except (Nat × Exc) Pairs
+  | _, root, [] => .ok root
+  | i, root, op :: rest =>
+    match runOp fuel root op with
+    | .error e => .error (i, e)
+    | .ok root1 => runOpsFrom fuel (i + 1) root1 rest
+
+def runOps (fuel : Nat) (root : Pairs) (ops : List Op) : Except (Nat × Exc) Pairs :=
+  runOpsFrom fuel 0 root ops
+
 end Pypyr.Merge
+
+/-!
+  ## Heap level: merge / set_defaults on OBJECTS
+
+  The tree model above cannot say "the incoming mapping is left unmodified": there an incoming mapping is
+  an immutable value. Here the context, every incoming mapping and everything they hold are cells of a
+  `FmtHeap.Heap`; `Context.merge` WRITES to cells — `current[k] = …` rewrites the dict cell `current`,
+  `current[k].extend(…)` rewrites the list cell `current[k]` — and `get_formatted_value` is
+  `FmtHeap.fmtHeap` (allocates only, hands some objects back by reference). What an operation stores in
+  the context is an object; the next operation of a sequence merges INTO that object. If it were an
+  object of an earlier incoming mapping, that mapping would change (C10: "leave the incoming mapping
+  itself unmodified" — theorems `Props/C10.lean`, section "heap level").
+-/
+namespace Pypyr.MergeHeap
+open Pypyr.FmtHeap
+
+/-- The context as the formatter sees it: the string keys of the dict object `root`, as it is now. -/
+def hctxOf (h : Heap) (root : Ref) : HCtx :=
+  match h[root]? with
+  | some (.dict _ kvs) => kvs.filterMap fun (kv : Ref × Ref) =>
+      match h[kv.1]? with
+      | some (Cell.str s) => some (s, kv.2)
+      | _ => none
+  | _ => []
+
+/-- `self.get_formatted_value(x)`: a top-level formatting call against the context as it is now. -/
+def fmtAt (fuel : Nat) (h : Heap) (root x : Ref) : Except Exc (Ref × Heap) :=
+  fmtHeap fuel (hctxOf h root) h x
+
+/-- `k in current` / `current[k]`: the value object under the key that reads as `kv`. -/
+def lookupH (h : Heap) : List (Ref × Ref) → Val → Option Ref
+  | [], _ => none
+  | (k, v) :: rest, kv => if deepVal h k = some kv then some v else lookupH h rest kv
+
+/-- `dict.__setitem__`: an equal key keeps the first key object and its position, else append. -/
+def setPairH (h : Heap) : List (Ref × Ref) → Val → Ref → Ref → List (Ref × Ref)
+  | [], _, k, v => [(k, v)]
+  | (k', v') :: rest, kv, k, v =>
+    if deepVal h k' = some kv then (k', v) :: rest else (k', v') :: setPairH h rest kv k v
+
+def dangling : Exc := outOfDomain "dangling reference or not a dict"
+
+def pairsOf (h : Heap) (d : Ref) : Option (Nat × List (Ref × Ref)) :=
+  match h[d]? with
+  | some (.dict tag kvs) => some (tag, kvs)
+  | _ => none
+
+/-- `current[k] = v` where `current` is the dict object `cur` (the ONLY kind of write to a dict). -/
+def writeKey (h : Heap) (cur : Ref) (kv : Val) (k v : Ref) : Except Exc Heap :=
+  match pairsOf h cur with
+  | none => .error dangling
+  | some (tag, kvs) => .ok (h.set cur (.dict tag (setPairH h kvs kv k v)))
+
+/-- `isinstance(v, (str, SpecialTagDirective))` -/
+def isStrLikeCell : Cell → Bool
+  | .str _ | .sic _ | .pyName _ | .jsonify _ => true
+  | _ => false
+
+/-- `isinstance(v, (bytes, bytearray))` -/
+def isBinaryCell : Cell → Bool
+  | .leaf (.bytes _) | .mbytes _ => true
+  | _ => false
+
+/-- members of `old | new`: the existing ones, then the new ones not yet present (by value) -/
+def unionH (h : Heap) (xs ys : List Ref) : List Ref :=
+  ys.foldl (fun acc y =>
+    if acc.any (fun x => deepVal h x == deepVal h y) then acc else acc ++ [y]) xs
+
+def unhashableE : Exc := ⟨"TypeError", "unhashable type"⟩
+
+/-- `current[k] = self.get_formatted_value(v)` -/
+def storeFormatted (fuel : Nat) (root cur : Ref) (fkv : Val) (fk v : Ref) (h : Heap) : Except Exc Heap :=
+  match fmtAt fuel h root v with
+  | .error e => .error e
+  | .ok (fv, h2) => writeKey h2 cur fkv fk fv
+
+/-- Body of the `for k, v in add_me.items()` loop of `merge_recurse(current, add_me)` on objects.
+    `recur cur' add' h` is `merge_recurse(current[k], v)`. -/
+def mergeItemH (fuel : Nat) (recur : Ref → Ref → Heap → Except Exc Heap)
+    (root cur k v : Ref) (h : Heap) : Except Exc Heap :=
+  -- k = self.get_formatted_value(k)
+  match fmtAt fuel h root k with
+  | .error e => .error e
+  | .ok (fk, h1) =>
+    match deepVal h1 fk, h1[v]? with
+    | some fkv, some vc =>
+      let hashOk := hashableH (h1.length + 1) h1 fk
+      if isStrLikeCell vc then
+        match fmtAt fuel h1 root v with
+        | .error e => .error e
+        | .ok (fv, h2) => if hashOk then writeKey h2 cur fkv fk fv else .error unhashableE
+      else if isBinaryCell vc then
+        if hashOk then writeKey h1 cur fkv fk v else .error unhashableE      -- current[k] = v: by reference
+      else if !hashOk then .error unhashableE
+      else
+        match pairsOf h1 cur with
+        | none => .error dangling
+        | some (_, kvs) =>
+          match lookupH h1 kvs fkv with
+          | none => storeFormatted fuel root cur fkv fk v h1
+          | some old =>
+            match h1[old]?, vc with
+            | some (.dict _ _), .dict _ _ => recur old v h1
+            | some (.list _ _), .list _ _ =>
+              -- current[k].extend(self.get_formatted_value(v)): the list OBJECT grows in place
+              match fmtAt fuel h1 root v with
+              | .error e => .error e
+              | .ok (fv, h2) =>
+                match h2[old]?, h2[fv]? with
+                | some (.list t xs), some (.list _ ys) => .ok (h2.set old (.list t (xs ++ ys)))
+                | _, _ => .error (outOfDomain "formatted list is not a list")
+            | some (.tuple _ _), .tuple _ _ =>
+              -- current[k] = current[k] + formatted: a NEW tuple object (plain tuple)
+              match fmtAt fuel h1 root v with
+              | .error e => .error e
+              | .ok (fv, h2) =>
+                match h2[old]?, h2[fv]? with
+                | some (.tuple tx xs), some (.tuple ty ys) =>
+                  -- CPython's tuple concatenation hands back an operand itself when the other one is
+                  -- empty and it is an exact `tuple`
+                  if ys.isEmpty && tx == 0 then writeKey h2 cur fkv fk old
+                  else if xs.isEmpty && ty == 0 then writeKey h2 cur fkv fk fv
+                  else
+                    let (h3, nr) := alloc h2 (.tuple 0 (xs ++ ys))
+                    writeKey h3 cur fkv fk nr
+                | _, _ => .error (outOfDomain "formatted tuple is not a tuple")
+            | some (.set _ _), .set _ _ =>
+              -- current[k] = current[k] | formatted: a NEW set object (frozenset stays frozenset)
+              match fmtAt fuel h1 root v with
+              | .error e => .error e
+              | .ok (fv, h2) =>
+                match h2[old]?, h2[fv]? with
+                | some (.set t xs), some (.set _ ys) =>
+                  let (h3, nr) := alloc h2 (.set (if t == 1 then 1 else 0) (unionH h2 xs ys))
+                  writeKey h3 cur fkv fk nr
+                | _, _ => .error (outOfDomain "formatted set is not a set")
+            | _, _ => storeFormatted fuel root cur fkv fk v h1
+    | _, _ => .error dangling
+
+/-- the fold over the incoming items (the pair list of the incoming dict object as read when the loop
+    starts), left to right, the first exception ends it -/
+def foldItemsH (step : Ref → Ref → Heap → Except Exc Heap) : List (Ref × Ref) → Heap → Except Exc Heap
+  | [], h => .ok h
+  | (k, v) :: rest, h =>
+    match step k v h with
+    | .error e => .error e
+    | .ok h1 => foldItemsH step rest h1
+
+def noItemsE : Exc := ⟨"AttributeError", "object has no attribute 'items'"⟩
+
+/-- `merge_recurse(current, add_me)` on objects; fuel bounds the nesting depth of `add_me`. Python raises
+    RuntimeError when the dict being iterated changes size: only possible when the incoming mapping is
+    itself reachable from the context (outside the domain: reject). -/
+def mergeRecH (fuel : Nat) (root : Ref) : Nat → Ref → Ref → Heap → Except Exc Heap
+  | 0, _, _, _ => .error outOfFuel
+  | n + 1, cur, add, h =>
+    match pairsOf h add with
+    | none => .error noItemsE
+    | some (_, items) =>
+      match foldItemsH (fun k v hh => mergeItemH fuel (mergeRecH fuel root n) root cur k v hh) items h with
+      | .error e => .error e
+      | .ok h' =>
+        match pairsOf h' add with
+        | some (_, items') =>
+          if items'.length == items.length then .ok h'
+          else .error (outOfDomain "the incoming dict changed size during iteration")
+        | none => .error dangling
+
+/-- Body of the loop of `defaults_recurse(current, defaults)` on objects. -/
+def defaultsItemH (fuel : Nat) (recur : Ref → Ref → Heap → Except Exc Heap)
+    (root cur k v : Ref) (h : Heap) : Except Exc Heap :=
+  match fmtAt fuel h root k with
+  | .error e => .error e
+  | .ok (fk, h1) =>
+    match deepVal h1 fk, h1[v]? with
+    | some fkv, some vc =>
+      if !hashableH (h1.length + 1) h1 fk then .error unhashableE
+      else
+        match pairsOf h1 cur with
+        | none => .error dangling
+        | some (_, kvs) =>
+          match lookupH h1 kvs fkv with
+          | none => storeFormatted fuel root cur fkv fk v h1
+          | some old =>
+            match h1[old]?, vc with
+            | some (.dict _ _), .dict _ _ => recur old v h1
+            | _, _ => .ok h1
+    | _, _ => .error dangling
+
+def defaultsRecH (fuel : Nat) (root : Ref) : Nat → Ref → Ref → Heap → Except Exc Heap
+  | 0, _, _, _ => .error outOfFuel
+  | n + 1, cur, add, h =>
+    match pairsOf h add with
+    | none => .error noItemsE
+    | some (_, items) =>
+      match foldItemsH (fun k v hh => defaultsItemH fuel (defaultsRecH fuel root n) root cur k v hh) items h with
+      | .error e => .error e
+      | .ok h' =>
+        match pairsOf h' add with
+        | some (_, items') =>
+          if items'.length == items.length then .ok h'
+          else .error (outOfDomain "the incoming dict changed size during iteration")
+        | none => .error dangling
+
+/-- `Context.merge(add_me)` on the context object `root`. -/
+def mergeH (fuel : Nat) (root add : Ref) (h : Heap) : Except Exc Heap := mergeRecH fuel root fuel root add h
+
+/-- `Context.set_defaults(defaults)` on the context object `root`. -/
+def setDefaultsH (fuel : Nat) (root add : Ref) (h : Heap) : Except Exc Heap := defaultsRecH fuel root fuel root add h
+
+/-- One operation of a sequence; the incoming mapping is the object `add`. -/
+inductive OpH where
+  | merge (add : Ref)
+  | defaults (add : Ref)
+  | step (useDefaults : Bool) (add : Option Ref)
+  deriving Repr, Inhabited
+
+def hasLenCell : Cell → Bool
+  | .str _ | .leaf (.bytes _) | .mbytes _ | .list _ _ | .tuple _ _ | .dict _ _ | .set _ _ => true
+  | _ => false
+
+/-- the step: `context[key] = add` (the `in:` argument), `assert_key_has_value`, merge / set_defaults with
+    `context[key]` as the incoming mapping, then `len(context[key])` for the log line -/
+def runStepH (fuel : Nat) (useDefaults : Bool) (root : Ref) (add? : Option Ref) (h : Heap) : Except Exc Heap :=
+  let key := Merge.stepKey useDefaults
+  let caller := if useDefaults then "pypyr.steps.default" else "pypyr.steps.contextmerge"
+  let h0 : Except Exc Heap := match add? with
+    | none => .ok h
+    | some a =>
+      let (h1, kr) := alloc h (.str key)
+      writeKey h1 root (.str key) kr a
+  match h0 with
+  | .error e => .error e
+  | .ok h1 =>
+    match pairsOf h1 root with
+    | none => .error dangling
+    | some (_, kvs) =>
+      match lookupH h1 kvs (.str key) with
+      | none => .error ⟨"pypyr.errors.KeyNotInContextError",
+          "context['" ++ key ++ "'] doesn't exist. It must exist for " ++ caller ++ "."⟩
+      | some a =>
+        if isNoneCell h1 a then .error ⟨"pypyr.errors.KeyInContextHasNoValueError",
+          "context['" ++ key ++ "'] must have a value for " ++ caller ++ "."⟩
+        else
+          match (if useDefaults then setDefaultsH fuel root a h1 else mergeH fuel root a h1) with
+          | .error e => .error e
+          | .ok h2 =>
+            match pairsOf h2 root with
+            | none => .error dangling
+            | some (_, kvs2) =>
+              match lookupH h2 kvs2 (.str key) with
+              | none => .error (keyNotInContext key)
+              | some x => match h2[x]? with
+                | some c => if hasLenCell c then .ok h2 else .error ⟨"TypeError", "object has no len()"⟩
+                | none => .error dangling
+
+def runOpH (fuel : Nat) (root : Ref) (h : Heap) : OpH → Except Exc Heap
+  | .merge a => mergeH fuel root a h
+  | .defaults a => setDefaultsH fuel root a h
+  | .step d a => runStepH fuel d root a h
+
+/-- the operations in order on the one context object; the first failure ends the sequence -/
+def runOpsHFrom (fuel : Nat) (root : Ref) : Nat → Heap → List OpH → Except (Nat × Exc) Heap
+  | _, h, [] => .ok h
+  | i, h, op :: rest =>
+    match runOpH fuel root h op with
+    | .error e => .error (i, e)
+    | .ok h1 => runOpsHFrom fuel root (i + 1) h1 rest
+
+def runOpsH (fuel : Nat) (root : Ref) (h : Heap) (ops : List OpH) : Except (Nat × Exc) Heap :=
+  runOpsHFrom fuel root 0 h ops
+
+end Pypyr.MergeHeap
